@@ -64,6 +64,13 @@ def run(ctx):
         t = None
         while t is None or not no_input_eps_cycle(t):
             t = F.rand_fst(ctx.rng, n=ctx.rng.randint(1, 3), nA=2, nB=2, narcs=ctx.rng.randint(1, 5))
+            if gi % 4 == 1:     # epsilon on ONE tape only: insertions (eps:b) or deletions (a:eps), never both kinds
+                keep_in = ctx.rng.random() < 0.5
+                t["arcs"] = [ar for ar in t["arcs"] if not (ar[1] is None and ar[2] is None) and not ((ar[2] is None) if keep_in else (ar[1] is None))]
+                if not any((ar[1] is None) if keep_in else (ar[2] is None) for ar in t["arcs"]) and t["init"]:
+                    q0 = t["init"][0][0]
+                    t["arcs"].append([q0, None, 0, q0 + 1, "1/3"] if keep_in else [q0, 0, None, q0 + 1, "1/3"])
+                    t["arcs"].append([q0 + 1, 1, 1, t["final"][0][0] if t["final"] else q0, "1/4"])
         order = "cfg@fst" if gi % 2 == 0 else "fst@cfg"
         # every third job uses integer symbols on both tapes (0 is falsy, unlike a one-letter string)
         jobs.append({"tnames": ("int" if gi % 3 == 2 else "str"), "queries": [{"op": "cfg_compose", "g": g, "t": t, "ys": ys, "order": order, "timeout": 40}]})
